@@ -369,8 +369,8 @@ Proof.
     split; simpl; [exact S1|].
     destruct pc'; try contradiction; (destruct TR as [TR|[e [TR [R _]]]]; rewrite TR; auto; apply no_ready_cons; auto). }
   destruct pc as [[|m rest]| | |].
-  - destruct it; simpl; try (split; simpl; auto). apply TS. exact P.
-  - destruct it; simpl; try (split; simpl; auto); [|apply TS; exact P].
+  - destruct it; simpl; [split; simpl; auto|apply TS; exact P|split; simpl; auto].
+  - destruct it; simpl; [|apply TS; exact P|split; simpl; auto].
     unfold pc_after, finish_start. set (ths' := match polled_of _ m with [] => _ | _ :: _ => _ end).
     assert (S1 : forall tr, started_in tr ths -> started_in tr ths').
     { intros tr H. subst ths'. destruct (polled_of _ m); auto. intros th I D. apply in_app_or in I.
@@ -416,3 +416,47 @@ Proof.
   destruct R as [_ P]. rewrite PC in P. exact P.
 Qed.
 
+
+(* ---------------------------------------------------------------- shape of the shutdown trace *)
+Lemma fold_emit (f : name -> event) : forall l st,
+  trace (fold_left (fun acc m => emit (f m) acc) l st) = rev (map f l) ++ trace st /\
+  errors (fold_left (fun acc m => emit (f m) acc) l st) = errors st /\
+  modules (fold_left (fun acc m => emit (f m) acc) l st) = modules st.
+Proof.
+  induction l as [|x r IH]; intros st; simpl; auto.
+  destruct (IH (emit (f x) st)) as [T [E M]]. rewrite T, E, M. simpl. rewrite <- app_assoc. auto.
+Qed.
+
+Definition stops_of (s : sys) : list name := filter (has_thread (s_threads s)) (map fst (modules (s_node s))).
+
+Theorem shutdown_trace s order : s_pc s = MRun ->
+  trace (shutdown s order) =
+    rev (map EShutdown (sorted_modules (s_node s) order)) ++
+    rev (map EStop (stops_of s ++ stops_of s)) ++ trace (s_node s).
+Proof.
+  intros PC. unfold shutdown. rewrite PC.
+  destruct (fold_emit EShutdown (sorted_modules (s_node s) order)
+              (fold_left (fun acc m => emit (EStop m) acc) (stops_of s ++ stops_of s) (s_node s))) as [T _].
+  unfold stops_of in *. rewrite T.
+  destruct (fold_emit EStop (filter (has_thread (s_threads s)) (map fst (modules (s_node s))) ++
+                             filter (has_thread (s_threads s)) (map fst (modules (s_node s)))) (s_node s)) as [T2 _].
+  rewrite T2. reflexivity.
+Qed.
+
+(* ---------------------------------------------------------------- the start-up program of a poll thread *)
+Theorem thread_prog_shape st t : exists A B,
+  thread_prog st t = A ++ B ++ [EStarted t] /\
+  (forall m k, ~ In (ERead m k) A) /\ (forall e, In e B -> exists m k, e = ERead m k) /\
+  (forall m k, In (EWrite m k) A -> In m (polled_of st t) /\ In k (d_writes (decl_of st m))) /\
+  (forall m, In m (polled_of st t) -> forall k, In k (d_writes (decl_of st m)) -> In (EWrite m k) A).
+Proof.
+  unfold thread_prog. eexists. eexists. split; [reflexivity|]. split; [|split; [|split]].
+  - intros m k H. apply in_flat_map in H. destruct H as [x [_ H]]. apply in_app_or in H.
+    destruct H as [H|[H|[]]]; [|discriminate]. apply in_map_iff in H. destruct H as [y [H _]]. discriminate.
+  - intros e H. apply in_flat_map in H. destruct H as [x [_ H]]. simpl in H.
+    destruct H as [H|[H|[]]]; subst; eauto.
+  - intros m k H. apply in_flat_map in H. destruct H as [x [X H]]. apply in_app_or in H.
+    destruct H as [H|[H|[]]]; [|discriminate]. apply in_map_iff in H. destruct H as [y [H Y]].
+    inversion H; subst. auto.
+  - intros m M k K. apply in_flat_map. exists m. split; auto. apply in_or_app. left. apply in_map. exact K.
+Qed.
